@@ -71,7 +71,11 @@ FiredClause(T, obs) ==
 (* ---- the broker's answers against the Spec state T ----------------------- *)
 Judge(T, e, stopped) ==
   LET obs == e.obs IN
-  IF obs.nobjs # Len(T.objs) THEN
+  IF e.raised # "" THEN "XS_entry_point_raised"
+  \* nothing may fail behind the scenes (exception in an eventual-send turn, unhandled Deferred failure); the one
+  \* expected log entry is the DeadReferenceError of a connection that died before its version answer
+  ELSE IF e.ev # "ConnectDead" /\ obs.errors > 0 THEN "XS_error_logged"
+  ELSE IF obs.nobjs # Len(T.objs) THEN
     (IF obs.nobjs > Len(T.objs) THEN "XS_unexpected_server_object_created" ELSE "XS_server_object_not_created")
   ELSE IF ToSet(obs.ids) # AllIds(T) THEN "XS_all_serverids"
   ELSE IF \E s \in Sids : obs.cur[s] # T.cur[s] THEN "XS_server_object_identity"
